@@ -25,7 +25,7 @@ from lib import c01_pdu as pdu
 from lib import tlc
 
 LEVEL = "model_checking"
-MC_ACTIONS = ["ChkEcfI", "ChkEcfS", "ChkBasic", "ChkSdpLeaf", "ChkSdpWide", "ChkSdpText", "ChkSdpNest", "ChkSdpSeq", "ChkSdpMixed", "ChkRfc", "ChkMcc", "ChkPn", "ChkMsc",
+MC_ACTIONS = ["ChkEcfI", "ChkEcfS", "ChkBasic", "ChkSdpLeaf", "ChkSdpWide", "ChkSdpText", "ChkSdpNest", "ChkSdpSeq", "ChkSdpMixed", "ChkSdpForms", "ChkRfc", "ChkMcc", "ChkPn", "ChkMsc",
               "ChkAvdtp", "ChkAvctp", "ChkAvc", "ChkPass", "ChkVendor", "ChkRtp", "ChkAd", "ChkAdPad", "ChkUuid"]
 
 
